@@ -69,6 +69,12 @@ func vh_C08_recvPacket() {
 func vh_C08_makePacket() {
 	typ := vNondetU8()
 	data := vNondetBytesC(vN())
+	if vNondetBool() {
+		// as with the allocator: the payload is a sub-slice of a larger, dirty buffer
+		big := vHavocBytes(len(data) + 64)
+		copy(big, data)
+		data = big[:len(data)]
+	}
 	vConsumed(len(data) + 1)
 	pkt, err := makePacket(rxPacket{fxp(typ), data})
 	vAssert(vImplies(err == nil, pkt != nil), "a packet or an error")
@@ -77,6 +83,8 @@ func vh_C08_makePacket() {
 		vEmit("id", pkt.id())
 		// lazily decoded attribute blocks must also be total
 		switch p := pkt.(type) {
+		case *sshFxpWritePacket:
+			vAssert(int(p.Length) == len(p.Data) && 4+4+len(p.Handle)+8+4+len(p.Data) <= len(data), "WRITE data is backed by the bytes received")
 		case *sshFxpOpenPacket:
 			p.unmarshalFileStat(p.Flags)
 			r := &Request{Flags: p.Flags, Attrs: p.Attrs.([]byte)}
